@@ -1222,6 +1222,9 @@ theorem drive_frame (cfg : Cfg) (w : World) (t s fuel : Nat) :
   · split
     · exact ⟨w.log, w.recv, w.failed, rfl⟩
     · rename_i p hp _
+      by_cases hex : w.hasExec p = true
+      · rw [if_pos hex]; exact ⟨w.log, w.recv, w.failed, rfl⟩
+      rw [if_neg hex]
       by_cases hch : ((List.range w.n).any fun i => decide (w.parent i = some p) && w.running i) = true
       · rw [if_pos hch]; exact ⟨w.log, w.recv, _, rfl⟩
       · rw [if_neg hch]
@@ -1238,6 +1241,9 @@ theorem emitItems_silent (e : Env) (p : Nat) (ok : Bool) (h2 : e.g.conns (ch p 2
   · exact emitItems_failed e p hs
   · rw [emitItems_ok e p hs]; simp [fireAll, h2]
 
+/-- the parent that has to drive the upstream run does so here, not on an executor -/
+def DriverLocal (w : World) (t : Nat) : Prop := ∀ p, w.parent t = some p → w.hasExec p = false
+
 /-- the driving parent is a workflow (never emits) or nothing hangs on its outputs -/
 def DriverSilent (w : World) (t : Nat) : Prop :=
   ∀ p, w.parent t = some p → w.isWf p = true ∨ (w.g.conns (ch p 2) = [] ∧ Silent w.g p)
@@ -1253,7 +1259,7 @@ theorem ite_ok (c : Prop) [Decidable c] (h : (if c then Outcome.failed else Outc
 /-- the upstream run executes a prefix of the linked chain, all of it when nothing is reported -/
 theorem drive_log (cfg : Cfg) (w : World) (t a fuel : Nat) (L : List Nat)
     (hl : Linked w.g (a :: L)) (hf : L.length + 2 ≤ fuel)
-    (hdrv : cfg.parentEmits = false ∨ DriverSilent w t) :
+    (hdrv : cfg.parentEmits = false ∨ DriverSilent w t) (hloc : DriverLocal w t) :
     (drive cfg w t a fuel).2 ≠ .stuck ∧
       ∃ pre, pre <+: (a :: L) ∧ (drive cfg w t a fuel).1.log = w.log ++ executed w.hit pre ∧
         ((drive cfg w t a fuel).2 = .ok → pre = a :: L) ∧ (drive cfg w t a fuel).1.recv = w.recv := by
@@ -1271,7 +1277,8 @@ theorem drive_log (cfg : Cfg) (w : World) (t a fuel : Nat) (L : List Nat)
   · rename_i p hp
     split
     · exact ⟨by simp, [], List.nil_prefix, by simp [executed], by simp, rfl⟩
-    · by_cases hch : ((List.range w.n).any fun i => decide (w.parent i = some p) && w.running i) = true
+    · rw [if_neg (by rw [hloc p hp]; simp)]
+      by_cases hch : ((List.range w.n).any fun i => decide (w.parent i = some p) && w.running i) = true
       · rw [if_pos hch]; exact ⟨by simp, [], List.nil_prefix, by simp [executed], by simp, rfl⟩
       · rw [if_neg hch]
         obtain ⟨h1, _, pre, hpre, hlog, hcl⟩ := run_chain w.env .bfs L a w.x fuel hl rfl hf
@@ -1441,21 +1448,21 @@ theorem upstream_same (cfg : Cfg) (w : World) (t : Nat) (order chain : List Nat)
 
 theorem runUpstream_log (cfg : Cfg) (w : World) (t a fuel : Nat) (L : List Nat)
     (hl : Linked w.g (a :: L)) (hf : L.length + 2 ≤ fuel)
-    (hdrv : cfg.parentEmits = false ∨ DriverSilent w t) :
+    (hdrv : cfg.parentEmits = false ∨ DriverSilent w t) (hloc : DriverLocal w t) :
     (runUpstream cfg w t a fuel).2 ≠ .stuck ∧
       ∃ pre, pre <+: (a :: L) ∧ (runUpstream cfg w t a fuel).1.log = w.log ++ executed w.hit pre ∧
         ((runUpstream cfg w t a fuel).2 = .ok → pre = a :: L) ∧ (runUpstream cfg w t a fuel).1.recv = w.recv := by
   unfold runUpstream
   split
-  · exact drive_log cfg w t a fuel L hl hf hdrv
+  · exact drive_log cfg w t a fuel L hl hf hdrv hloc
   · rename_i p hp
     dsimp only
     cases hwf : w.isWf p
     · simp only [Bool.false_and, Bool.false_eq_true, if_false]
-      exact drive_log cfg { w with starting := updF w.starting p [a] } t a fuel L hl hf hdrv
+      exact drive_log cfg { w with starting := updF w.starting p [a] } t a fuel L hl hf hdrv hloc
     · simp only [Bool.true_and, if_true]
       have key := drive_log cfg
-        { w with starting := updF w.starting p [a], automate := updF w.automate p false } t a fuel L hl hf hdrv
+        { w with starting := updF w.starting p [a], automate := updF w.automate p false } t a fuel L hl hf hdrv hloc
       split
       · exact key
       · exact key
@@ -1486,6 +1493,7 @@ theorem upstream_log (cfg : Cfg) (w : World) (t : Nat) (order chain : List Nat) 
     (h : GWF w.g) (hnsp : NoSelfParent w)
     (hemit : cfg.cutAllOutputs = true ∨ ClosureEmitsOnlyRan w t)
     (hdrv : cfg.parentEmits = false ∨ DriverSilent w t)
+    (hlocal : cfg.refuseDriverExec = true ∨ DriverLocal w t)
     (hfuel : chain.length + 1 ≤ fuel) :
     (upstream cfg w t order chain fuel).2 ≠ .stuck ∧
       ∃ pre, pre <+: chain.dropLast ∧ (upstream cfg w t order chain fuel).1.log = w.log ++ executed w.hit pre ∧
@@ -1501,7 +1509,8 @@ theorem upstream_log (cfg : Cfg) (w : World) (t : Nat) (order chain : List Nat) 
   · rename_i cl hcl
     split
     · exact trivial_case _ (by simp) (by simp)
-    · split
+    · rename_i hexec
+      split
       · exact trivial_case _ (by simp) (by simp)
       · rename_i hvo
         have hvo' : validOrder cl order = true := by simpa using hvo
@@ -1589,9 +1598,27 @@ theorem upstream_log (cfg : Cfg) (w : World) (t : Nat) (order chain : List Nat) 
                         key 5 (by simp) hs.2.2⟩
                 have hf' : L.length + 2 ≤ fuel := by
                   rw [hchain] at hfuel; simp at hfuel; omega
+                have hloc' : DriverLocal
+                    { w with g := (prepare cfg w.g t order chain).1, label := relabel w.label order } t := by
+                  intro p hp
+                  rcases hlocal with hr | hl
+                  · -- with the repair the pull would have been refused: `a` is upstream of the target
+                    have hat : a ≠ t := by
+                      intro e; apply hst; rw [hhead, e]
+                    have hacl : a ∈ cl := (hcm a).mp (by rw [hchain]; simp)
+                    have hany : cl.any (fun x => decide (x ≠ t)) = true :=
+                      List.any_eq_true.mpr ⟨a, hacl, by simpa using hat⟩
+                    cases hx : w.hasExec p with
+                    | false => rfl
+                    | true =>
+                      exfalso; apply hexec
+                      have hp' : w.parent t = some p := hp
+                      simp [driverExecRefused, hr, hp', hx]
+                      exact Or.inr ⟨a, hacl, hat⟩
+                  · exact hl p hp
                 obtain ⟨hns, pre, hpre, hlog, hok, hrecv⟩ := runUpstream_log cfg
                   { w with g := (prepare cfg w.g t order chain).1, label := relabel w.label order }
-                  t a fuel L hlinked hf' hdrv'
+                  t a fuel L hlinked hf' hdrv' hloc'
                 refine ⟨hns, pre, hpre, ?_, hok, ?_, ?_⟩
                 · unfold finish; dsimp only
                   split <;> exact hlog
@@ -1605,7 +1632,8 @@ theorem upstream_log (cfg : Cfg) (w : World) (t : Nat) (order chain : List Nat) 
 
 /-- the branch of `upstream` in which every check has passed -/
 theorem upstream_main (cfg : Cfg) (w : World) (t : Nat) (order chain : List Nat) (fuel : Nat)
-    (cl : List Nat) (hcl : closureOf w t = some cl) (he : cl.any w.hasExec = false)
+    (cl : List Nat) (hcl : closureOf w t = some cl)
+    (he : (cl.any w.hasExec || driverExecRefused cfg w t cl) = false)
     (hvo : validOrder cl order = true)
     (hsc : (order.all fun i => decide (w.parent i = w.parent t)) = true)
     (hvc : validChain w cl chain = true) :
@@ -1633,7 +1661,7 @@ theorem upstream_automate (cfg : Cfg) (w : World) (t : Nat) (order chain : List 
   cases hcl : closureOf w t with
   | none => simp [upstream, hcl]
   | some cl =>
-    cases he : cl.any w.hasExec with
+    cases he : (cl.any w.hasExec || driverExecRefused cfg w t cl) with
     | true => simp [upstream, hcl, he]
     | false =>
       cases hvo : validOrder cl order with
@@ -1666,7 +1694,7 @@ theorem upstream_conns_eq (cfg : Cfg) (w : World) (t : Nat) (order chain : List 
   cases hcl : closureOf w t with
   | none => simp [upstream, hcl]
   | some cl =>
-    cases he : cl.any w.hasExec with
+    cases he : (cl.any w.hasExec || driverExecRefused cfg w t cl) with
     | true => simp [upstream, hcl, he]
     | false =>
       cases hvo : validOrder cl order with
@@ -1732,7 +1760,7 @@ theorem upstream_ok_valid (cfg : Cfg) (w : World) (t : Nat) (order chain : List 
         · split at hok
           · cases hok
           · rename_i hvc
-            exact ⟨cl, hcl, by simpa using he, by simpa using hvo, by simpa using hvc⟩
+            exact ⟨cl, hcl, by simp at he; simpa using he.1, by simpa using hvo, by simpa using hvc⟩
 
 theorem Silent.of_same {w w' : World} (hs : Same w w') {i : Nat} (h : Silent w.g i) : Silent w'.g i := by
   have key : ∀ c, w.g.conns c = [] → w'.g.conns c = [] := by
@@ -1745,18 +1773,27 @@ theorem Silent.of_same {w w' : World} (hs : Same w w') {i : Nat} (h : Silent w.g
 
 /-- what a level needs for exactness; trivially true of the repaired variant -/
 def LevelHyp (cfg : Cfg) (w : World) (a : Nat) : Prop :=
-  (cfg.cutAllOutputs = true ∨ ClosureEmitsOnlyRan w a) ∧ (cfg.parentEmits = false ∨ DriverSilent w a)
+  (cfg.cutAllOutputs = true ∨ ClosureEmitsOnlyRan w a) ∧ (cfg.parentEmits = false ∨ DriverSilent w a) ∧
+    (cfg.refuseDriverExec = true ∨ DriverLocal w a)
 
 theorem LevelHyp.of_same {cfg : Cfg} {w w' : World} {a : Nat} (hs : Same w w') (h : LevelHyp cfg w a) :
     LevelHyp cfg w' a := by
-  refine ⟨?_, ?_⟩
+  refine ⟨?_, ?_, ?_⟩
+  rotate_left 2
+  · rcases h.2.2 with h3 | h3
+    · exact Or.inl h3
+    · right
+      intro p hp
+      rw [hs.parent] at hp
+      rw [hs.hasExec]
+      exact h3 p hp
   · rcases h.1 with h1 | h1
     · exact Or.inl h1
     · right
       intro i hi
       rw [hs.deps] at hi
       exact (h1 i hi).of_same hs
-  · rcases h.2 with h2 | h2
+  · rcases h.2.1 with h2 | h2
     · exact Or.inl h2
     · right
       intro p hp
@@ -1796,7 +1833,7 @@ theorem upstreamLevels_spec (cfg : Cfg) (obs : Nat → List Nat × List Nat) (fu
     intro w hg hn hh hf
     have hlev := hh a List.mem_cons_self
     obtain ⟨hns, pre1, hp1, hlog1, hok1, hmem1, hrecv1⟩ := upstream_log cfg w a (obs a).1 (obs a).2 fuel hg hn
-      hlev.1 hlev.2 (hf a List.mem_cons_self)
+      hlev.1 hlev.2.1 hlev.2.2 (hf a List.mem_cons_self)
     have hsame := upstream_same cfg w a (obs a).1 (obs a).2 fuel hg
     have hll : levelsLog obs (a :: rest) = (obs a).2.dropLast ++ levelsLog obs rest := by
       simp [levelsLog]
